@@ -35,6 +35,8 @@ type Call struct {
 	Rel   string `json:"rel,omitempty"`
 	Stale bool   `json:"stale,omitempty"`
 	Scope string `json:"scope,omitempty"` // "" and "global" name the same scope (but different single-flight keys)
+	// CancelUs > 0: the context of this call is cancelled that many microseconds after its invocation (val only)
+	CancelUs int64 `json:"cancel_us,omitempty"`
 }
 
 // Caller is one goroutine of the workload.
@@ -118,6 +120,10 @@ func genVal(r *rand.Rand, sc *Scenario) Call {
 		c.A = pick(r, int64(0), int64(1), int64(r.Int63n(1<<62)))
 	case "small":
 		c.A = int64(r.Intn(100))
+	}
+	if r.Intn(6) == 0 {
+		// the caller gives up while the (possibly shared) fetch from PD is outstanding
+		c.CancelUs = pick(r, int64(50+r.Intn(3000)), int64(1000+r.Intn(200000)), int64(1+r.Intn(2000000)))
 	}
 	return c
 }
